@@ -431,7 +431,7 @@ def run_all(hs, logdir):
 PB_RE = re.compile(r"```\n(.*?)```", re.S)
 
 
-def playback(h, logdir):
+def playback(h, logdir, cap_s=None):
     """Confirm a counter-example natively: ask Kani for concrete values, add the generated unit test to the
     harness module in a fresh overlay, run it with `cargo kani playback` (no stubs, real code)."""
     root = scratch_root()
@@ -439,7 +439,7 @@ def playback(h, logdir):
     tdir = os.path.join(root, "target_pb")
     # (extracting the trace makes the Kani driver itself allocate a lot: a generous address-space cap for this one run)
     r = run_harness(h, overlay, tdir, logdir, extra=["-Z", "concrete-playback", "--concrete-playback=print"], tag=".cex", cap_gb=max(40, h.mem),
-                    timeout=max(3600, 3 * h.timeout))  # one solver call per failed check and per cover: several times the plain run
+                    timeout=min(cap_s, max(3600, 3 * h.timeout)) if cap_s else max(3600, 3 * h.timeout))  # one solver call per failed check and per cover: several times the plain run
     text = open(r["log"], errors="replace").read()
     tests = PB_RE.findall(text)
     if not tests and h.kind == "should_panic":
